@@ -54,8 +54,16 @@ def gen_rates(rng, max_up=300.0, max_down=3000.0):
     return 44100, 48000
 
 
-def gen_config(rng, allow_nonlinear=True, max_up=300.0, max_down=3000.0, datatypes=False, channels=False):
+def small_ratio_grid(n=12):
+    """every reduced ratio a:b with 1 <= a, b <= n (a != b): the small-integer ratios, each of which the planner treats in its own way
+    (which stage carries which factor, time- or frequency-domain rate change, decimation by 2 or by 4 inside a dft stage ...)"""
+    return [(a, b) for a in range(1, n + 1) for b in range(1, n + 1) if a != b and math.gcd(a, b) == 1]
+
+
+def gen_config(rng, allow_nonlinear=True, max_up=300.0, max_down=3000.0, datatypes=False, channels=False, rates=None):
     ir, orr = gen_rates(rng, max_up, max_down)
+    if rates is not None:
+        ir, orr = rates
     cfg = {"ir": repr(float(ir)) if isinstance(ir, float) else str(ir),
            "or": repr(float(orr)) if isinstance(orr, float) else str(orr)}
     recipe = rng.choice([0, 1, 2, 3, 4, 4, 5, 6, 6, 7, 8, 9, 10])      # QQ…32-bit, LSR0-2 (8,9,10)
